@@ -41,6 +41,46 @@ func FlaggedAt(cur *View, h int64) map[string]bool {
 	return out
 }
 
+// MaybeFlaggedAt returns the validators whose frozen record carries height h with the status of
+// a guilty verdict: the verdict of the block end overwrites a missed-votes record created while
+// the same block began, so these validators may or may not have been electable in block h.
+func MaybeFlaggedAt(cur *View, h int64) map[string]bool {
+	out := map[string]bool{}
+	for a, f := range cur.Frozen {
+		if f.FrozenHeight == h && f.Status != StatusMissedVotes {
+			out[a] = true
+		}
+	}
+	return out
+}
+
+// ElectedCounts returns the possible seat counts of the reference election of block h: without
+// and with the validators whose flagging at the block's begin cannot be told from the dump.
+func ElectedCounts(prev, cur *View, opts StakingOpts, h int64) []int {
+	fl, maybe := FlaggedAt(cur, h), MaybeFlaggedAt(cur, h)
+	n, m := 0, 0
+	for _, r := range Eligible(prev, opts) {
+		if fl[r.Addr] {
+			continue
+		}
+		n++
+		if !maybe[r.Addr] {
+			m++
+		}
+	}
+	if int64(n) > opts.Top {
+		n = int(opts.Top)
+	}
+	if int64(m) > opts.Top {
+		m = int(opts.Top)
+	}
+	var out []int
+	for k := m; k <= n; k++ {
+		out = append(out, k)
+	}
+	return out
+}
+
 // ElectedCount is how many validators the reference election seats: the top count or
 // all eligible candidates that are not flagged, whichever is smaller.
 func ElectedCount(prev, cur *View, opts StakingOpts, h int64) int {
